@@ -373,6 +373,14 @@ func min(a, b int) int {
 	return b
 }
 
+type uniqueArg struct {
+	info *types.Info
+	fd   *ast.FuncDecl
+	arg  ast.Expr
+}
+
+var uniqueArgs = map[types.Object]uniqueArg{}
+
 func fromUniqueName(info *types.Info, fd *ast.FuncDecl, e ast.Expr) bool {
 	e = ast.Unparen(e)
 	// a sanitised name followed by a decimal counter is still an identifier
@@ -402,6 +410,27 @@ func fromUniqueName(info *types.Info, fd *ast.FuncDecl, e ast.Expr) bool {
 			cinfo := stripProg.Info(fn.Pkg())
 			stripDepth++
 			defer func() { stripDepth-- }()
+			// inside the helper its parameters stand for the arguments of this very call
+			var bound []types.Object
+			k := 0
+			if d.Type.Params != nil {
+				for _, f := range d.Type.Params.List {
+					for _, nm := range f.Names {
+						if o := cinfo.Defs[nm]; o != nil && k < len(call.Args) && !call.Ellipsis.IsValid() {
+							if _, busy := uniqueArgs[o]; !busy {
+								uniqueArgs[o] = uniqueArg{info, fd, call.Args[k]}
+								bound = append(bound, o)
+							}
+						}
+						k++
+					}
+				}
+			}
+			defer func() {
+				for _, o := range bound {
+					delete(uniqueArgs, o)
+				}
+			}()
 			okAll, n := true, 0
 			ast.Inspect(d.Body, func(x ast.Node) bool {
 				if _, isLit := x.(*ast.FuncLit); isLit {
@@ -486,6 +515,13 @@ func fromUniqueName(info *types.Info, fd *ast.FuncDecl, e ast.Expr) bool {
 		return false
 	}
 	v := info.ObjectOf(id)
+	// a parameter of a helper entered through a call under examination: the argument of that call
+	if ua, ok := uniqueArgs[v]; ok {
+		delete(uniqueArgs, v)
+		r := fromUniqueName(ua.info, ua.fd, ua.arg)
+		uniqueArgs[v] = ua
+		return r
+	}
 	// a string parameter: every call site passes a uniqueName-derived string
 	if pv, isVar := v.(*types.Var); isVar && stripProg != nil && fd.Type.Params != nil {
 		pi, k := -1, 0
